@@ -21,6 +21,7 @@
 //!   (raceprobe <n>)   n sessions of one call whose service replies and immediately closes
 //!   (closeprobe <n>)  n runs of `REQUEST | varlink -A <service> bridge` (stdin closed right after the request)
 //!   (goneprobe <variant>)  the client is on two pipes and goes away while a call is pending and the service silent
+//!   (sessprobe long|downup|reset)  resolver-mode sessions in special worlds (see run_sessprobe)
 //!
 //! Observation:
 //!   (obs (bridged (out <reply>*) b<raw> <end>) (exit <code|sig<n>|timeout|closed-by-service>)
@@ -1204,6 +1205,137 @@ fn run_goneprobe(ctx: &Ctx, l: &[Sx]) -> Sx {
     sx::tagged("goneprobe", vec![sx::atom(if !started { "no-first-reply" } else if stopped { "stopped" } else { "running" })])
 }
 
+/// `(sessprobe <variant>)`: resolver-mode sessions that need a special world
+///   long      one session of 150 calls with the bridge limited to 128 open descriptors (RLIMIT_NOFILE):
+///             nothing may be used up per call              -> (sessprobe (answered 150) (exit 0))
+///   downup    a call to an interface whose service is down (answered InterfaceNotFound by the bridge), then
+///             the service comes up and the SAME interface is called again (no other interface in between):
+///             a direct client is answered now               -> (sessprobe (replies notfound ok) (exit 0))
+///   reset     the service closes the connection with the request unread (connection reset): an I/O error,
+///             the bridge stops by itself and does not report success -> (sessprobe (stops t) (exit 1))
+fn run_sessprobe(ctx: &Ctx, l: &[Sx]) -> Sx {
+    let variant = l[1].as_atom().unwrap_or("").to_string();
+    let sub = Subst::new(ctx, "y");
+    let w = WorldSpec { svc: wire::svc_cfg("sess", &[], false).sx, resolver: None, up: true, seq: false };
+    let addr = service_address(&sub, 0);
+    let table = vec![("org.example.abort".to_string(), vec![addr.clone()])];
+    let resolver_addr = format!("unix:{}/resolver.sock", sub.dir);
+    let mut services = Vec::new();
+    services.push(spawn_service(&resolver_world(&table), &resolver_addr));
+    let mut raw_listener = None;
+    match variant.as_str() {
+        "downup" => {}
+        "reset" => {
+            // not a varlink service: accepts and closes without reading
+            let l = std::os::unix::net::UnixListener::bind(addr.trim_start_matches("unix:")).expect("bind raw");
+            let l2 = l.try_clone().unwrap();
+            std::thread::spawn(move || {
+                while let Ok((s, _)) = l2.accept() {
+                    std::thread::sleep(Duration::from_millis(150));
+                    drop(s);
+                }
+            });
+            raw_listener = Some(l);
+        }
+        _ => services.push(spawn_service(&w, &addr)),
+    }
+    let mut cmd = Command::new(varlink_cli_path());
+    cmd.arg("-R").arg(&resolver_addr).arg("bridge");
+    cmd.stdin(Stdio::piped()).stdout(Stdio::piped()).stderr(Stdio::null());
+    if variant == "long" {
+        use std::os::unix::process::CommandExt;
+        unsafe {
+            cmd.pre_exec(|| {
+                let lim = libc::rlimit { rlim_cur: 128, rlim_max: 128 };
+                if libc::setrlimit(libc::RLIMIT_NOFILE, &lim) != 0 {
+                    return Err(std::io::Error::last_os_error());
+                }
+                Ok(())
+            });
+        }
+    }
+    let mut child = cmd.spawn().expect("spawn varlink");
+    let mut stdin = child.stdin.take();
+    let coll = Collector::start(child.stdout.take().unwrap());
+    let mut guard = ChildGuard::new(child);
+    let call = |i: usize| {
+        let mut f = serde_json::to_vec(&json!({"method":"org.example.abort.SlowReply","parameters":{"delay_ms":0,"token":format!("s{}", i)}})).unwrap();
+        f.push(0);
+        f
+    };
+    let send = |stdin: &mut Option<std::process::ChildStdin>, b: &[u8]| {
+        if let Some(s) = stdin.as_mut() {
+            let _ = s.write_all(b);
+            let _ = s.flush();
+        }
+    };
+    let exit_sx = |st: Option<std::process::ExitStatus>| match st {
+        None => sx::atom("timeout"),
+        Some(st) => match st.code() {
+            Some(c) => sx::atom(&format!("{}", c)),
+            None => sx::atom("signal"),
+        },
+    };
+    let res = match variant.as_str() {
+        "long" => {
+            const N: usize = 150;
+            for i in 0..N {
+                send(&mut stdin, &call(i));
+                // in step: every call is a connection of its own
+                coll.wait(STEP_WAIT, |b| nul_count(b) > i);
+                if coll.is_eof() {
+                    break;
+                }
+            }
+            let b = coll.snapshot();
+            let good = wire::split_replies(&b).iter().filter(|r| r.render().contains(&sx::xs("slow").render())).count();
+            drop(stdin.take());
+            let st = guard.wait_timeout(EXIT_WAIT);
+            vec![sx::tagged("answered", vec![sx::nat(good)]), sx::tagged("exit", vec![exit_sx(st)])]
+        }
+        "downup" => {
+            send(&mut stdin, &call(0));
+            coll.wait(STEP_WAIT, |b| nul_count(b) >= 1);
+            services.push(spawn_service(&w, &addr));
+            // the service is up when it can be connected to
+            drop(connect_retry(&addr, Duration::from_secs(3)));
+            send(&mut stdin, &call(2));
+            coll.wait(STEP_WAIT, |b| nul_count(b) >= 2);
+            let b = coll.snapshot();
+            let kinds: Vec<Sx> = wire::split_replies(&b)
+                .iter()
+                .map(|r| {
+                    let t = r.render();
+                    if t.contains(&sx::xs("org.varlink.service.InterfaceNotFound").render()) {
+                        sx::atom("notfound")
+                    } else if t.contains(&sx::xs("slow").render()) {
+                        sx::atom("ok")
+                    } else {
+                        sx::atom("other")
+                    }
+                })
+                .collect();
+            drop(stdin.take());
+            let st = guard.wait_timeout(EXIT_WAIT);
+            vec![sx::tagged("replies", kinds), sx::tagged("exit", vec![exit_sx(st)])]
+        }
+        _ => {
+            send(&mut stdin, &call(0));
+            // the bridge must stop by itself: the client keeps its side open
+            let st = guard.wait_timeout(Duration::from_millis(2000));
+            let stopped = st.is_some();
+            drop(stdin.take());
+            let st = if stopped { st } else { guard.wait_timeout(EXIT_WAIT) };
+            vec![sx::tagged("stops", vec![sx::boolean(stopped)]), sx::tagged("exit", vec![exit_sx(st)])]
+        }
+    };
+    drop(guard);
+    drop(services);
+    drop(raw_listener);
+    let _ = std::fs::remove_dir_all(&sub.dir);
+    sx::tagged("sessprobe", res)
+}
+
 // ---------------------------------------------------------------------------
 // generators
 
@@ -1669,6 +1801,7 @@ impl Suite for ProxySuite {
             "raceprobe" => run_raceprobe(ctx, l),
             "closeprobe" => run_closeprobe(ctx, l),
             "goneprobe" => run_goneprobe(ctx, l),
+            "sessprobe" => run_sessprobe(ctx, l),
             other => panic!("case kind {}", other),
         }
     }
